@@ -82,6 +82,20 @@ Theorem C02_unknown_rules_only_on_unknown_fields :
     coerce_fields current x ns rsch [f] = Ok ns.
 Proof. exact (known_field_not_coerced_by_unknown_rule current). Qed.
 
+(* the rules for unknown fields reach the CONTAINERS of unknown fields (900b8aa): an unknown list is normalized member by member
+   against the `schema` of those rules, exactly as a declared field's list is against its own *)
+Theorem C02_unknown_lists_are_normalized_by_the_unknown_rules :
+  forall childn x ns rsch f l d,
+    assoc_get f rsch = None -> unknown_rules x = Some d ->
+    assoc_get f (n_map ns) = Some (VList l) -> assoc_mem (KStr "schema") d = true ->
+    containers current childn x ns rsch [f] =
+    (do ns' <- norm_sequence_schema current childn x ns f l
+                 (match assoc_get (KStr "schema") d with Some c => c | None => VNone end);
+     Ok ns').
+Proof.
+  intros childn x ns rsch f l d Hg Hu Hv Hs. cbn [containers]. rewrite Hv, Hg, Hu. cbn [bind]. rewrite Hs. reflexivity.
+Qed.
+
 Theorem C02_items_length_mismatch_not_normalized :
   forall childn x ns field l its,
     Nat.eqb (List.length its) (List.length l) = false ->
